@@ -334,6 +334,10 @@ pub struct FsFaults {
     pub enospc_after_bytes: Option<u64>,
     pub rename_errno: Option<i32>,
     pub fsync_errno: Option<i32>,
+    /// With fsync_errno: the failing fsync reports a failed write-back - of the data written to the
+    /// file since its last successful fsync only this many bytes are on the medium (and that is
+    /// what every later read sees).
+    pub fsync_error_keeps: Option<u64>,
     /// Every open() for reading an existing file fails with this errno.
     pub open_read_errno: Option<i32>,
     /// Every read() of a simulated file fails with this errno.
@@ -860,6 +864,18 @@ impl SimFs {
         let ino = self.ofds[&ofd].ino;
         if let Some(e) = self.faults.fsync_errno {
             self.fire("fsync_error");
+            if let Some(keep) = self.faults.fsync_error_keeps {
+                // write-back failed: the un-synced tail of the file never reached the medium
+                let last_sync = self.journal.iter().rposition(|o| matches!(o, Op::Fsync { ino: i } if *i == ino)).map(|i| i + 1).unwrap_or(0);
+                let unsynced: u64 = self.journal[last_sync..].iter().map(|o| if let Op::Write { ino: wi, data, .. } = o { if *wi == ino { data.len() as u64 } else { 0 } } else { 0 }).sum();
+                let len = self.disk.inodes.get(&ino).map(|i| i.data.len() as u64).unwrap_or(0);
+                let synced = len.saturating_sub(unsynced);
+                let new_len = (synced + keep).min(len);
+                if new_len < len {
+                    self.fire("fsync_error_lost_unsynced_data");
+                    self.record(Op::Truncate { ino, len: new_len });
+                }
+            }
             return Err(e);
         }
         self.journal.push(Op::Fsync { ino });
